@@ -161,7 +161,7 @@ def run_property(pid, tier, seed, args):
         obligations += rep.obligations
         reports.append({'contract': c, 'rep': rep, 'error': None, 'gen_s': time.time() - t1})
 
-    if not obligations:
+    if not obligations and spec.get('level') != 'exploration':
         log('CHECK-ERROR property=%s zero obligations generated' % pid)
         return 3
 
@@ -368,7 +368,7 @@ def run_property(pid, tier, seed, args):
             'undecided_obligations': undecided,
             'known_findings_reported': sorted(seen_k),
             'not_covered': spec.get('not_covered', []),
-            'samples': samples,
+            'samples': samples + nat.get('samples', []),
             'evaluations': nat['evaluations'], 'distinct_nontrivial': nat['distinct_nontrivial'],
             'rule': nat['rule'],
         },
